@@ -37,8 +37,12 @@ def _name(lst):
     return [net.comp(x) for x in lst]
 
 
+_OPTS = {'no_content': False}
+
+
 def data_for(lst):
-    return net.data_wire(_name(lst), content=('D:' + '/'.join(lst)).encode())
+    # (a Data packet may have no Content element at all)
+    return net.data_wire(_name(lst), content=None if _OPTS['no_content'] else ('D:' + '/'.join(lst)).encode())
 
 
 # ---- strategy ------------------------------------------------------------------------------------------------
@@ -193,6 +197,47 @@ def run_placeholder(case):
     return r
 
 
+def run_second_loop(case):
+    """The application object is run, shut down, and run again in a FRESH event loop (a second run_forever()): Interests on the
+    second connection complete like on the first."""
+    r = Result()
+    fe = case['frontend']
+    sim = AppSim(fe)
+    try:
+        for conn in range(2):
+            sim.start()
+            nm = [net.comp('c%d' % conn), net.comp('x')]
+            hs = [sim.express(nm, lifetime=200, vlat=0.0, verdict=_verdict(fe, True)),
+                  sim.express(nm + [net.comp('never')], lifetime=50, vlat=0.0, verdict=_verdict(fe, True))]
+            for h in hs:
+                if h.express_error is not None:
+                    r.bad(f'C03/{fe}/second-loop/express-raised/connection-{conn}/{type(h.express_error).__name__}', repr(h.express_error)[:200])
+                    return r
+            sim.vl.advance(case['delay'] / 1000)
+            sim.deliver(net.data_wire(nm, content=b'x'), case['mode'])
+            sim.vl.advance(0.3)
+            labs = [_outcome_label(h) for h in hs]
+            if labs != ['data', 'exc:InterestTimeout']:
+                r.bad(f'C03/{fe}/second-loop/wrong-outcome/connection-{conn}', f'{labs} expected [data, exc:InterestTimeout]')
+                return r
+            if sim.receive_errors:
+                r.bad(f'C03/{fe}/second-loop/receive-raised/connection-{conn}', sim.receive_errors[0])
+                return r
+            if sim.pending_size():
+                r.bad(f'C03/{fe}/second-loop/entries-left-pending/connection-{conn}', str(sim.pending_size()))
+            err = sim.finish()
+            if err:
+                r.bad(f'C03/{fe}/second-loop/main-loop/connection-{conn}', err)
+                return r
+            if conn == 0:
+                sim.renew_loop()
+    finally:
+        sim.close()
+    r.key = (fe, case['mode'], case['delay'])
+    r.classes = (fe, 'second-connection-in-a-fresh-loop')
+    return r
+
+
 def _placeholder_case():
     return st.fixed_dictionaries({'frontend': st.sampled_from(['v2', 'legacy']), 'name': st.lists(st.sampled_from(ALPHA), min_size=1, max_size=3),
                                   'pos': st.integers(0, 3), 'others': st.integers(0, 2), 'signed': st.booleans(),
@@ -203,7 +248,8 @@ def _case(frontend):
     second = st.one_of(st.none(), st.none(),
                        st.fixed_dictionaries({'name': st.lists(st.sampled_from(ALPHA[:2]), min_size=1, max_size=2),
                                               'life': st.sampled_from([50, 4000])}))
-    return st.fixed_dictionaries({'frontend': st.just(frontend), 'ops': _history(), 'second_app': second})
+    return st.fixed_dictionaries({'frontend': st.just(frontend), 'ops': _history(), 'second_app': second,
+                                  'no_content': st.sampled_from([False, False, True]), 'debug_log': st.sampled_from([False, False, False, True])})
 
 
 # ---- run + model -------------------------------------------------------------------------------------------------
@@ -224,7 +270,9 @@ def run_case(case):
             sim2.start()
             h2 = sim2.express(_name(case['second_app']['name']), lifetime=case['second_app']['life'], can_be_prefix=True,
                               vlat=0.0, verdict=_verdict(fe, True))
-        _run(sim, fe, case['ops'], r)
+        _OPTS['no_content'] = bool(case.get('no_content'))
+        with net.debug_logging(bool(case.get('debug_log'))):
+            _run(sim, fe, case['ops'], r)
         if sim2 is not None and not r.violations:
             sim.vl.advance(5.0)
             lab = _outcome_label(h2)
@@ -294,7 +342,8 @@ def _run(sim, fe, ops, r):
             if h.express_error is not None:
                 r.bad(f'C03/{fe}/express-raised/{type(h.express_error).__name__}', repr(h.express_error))
                 return
-            ents.append({'name': lst, 'cbp': op['cbp'], 'digest': op['digest'], 'life': op['life'], 'vlat': op['vlat'],
+            aw_ms = op.get('await_after', 0) if op.get('await_after', 0) < op['life'] - 2 and op['vlat'] in ('0', '1ms') else 0
+            ents.append({'aw': aw_ms, 'name': lst, 'cbp': op['cbp'], 'digest': op['digest'], 'life': op['life'], 'vlat': op['vlat'],
                          'verdict': op['verdict'], 'h': h, 't0': h.t0_ms, 'comps': comps,
                          # (InterestLifetime 0: the library waits the 100 ms it grants an already expired deadline; anything
                          # between 'expires at once' and 'expires after 100 ms' is accepted - see `lenient` below)
@@ -542,7 +591,8 @@ def _allowed(fe, i, e, events):
         tie = t >= d - 1
         out = set()
         if hit == 'data':
-            done = t + vl
+            # (legacy front-end: the validator runs when the caller awaits the result, i.e. not before t0 + await_after)
+            done = (t if fe == 'v2' else max(t, t0 + e.get('aw', 0))) + vl
             if fe == 'v2':
                 if done < d - 1:
                     out.add(verdict_out)
@@ -581,6 +631,9 @@ def _max_concurrent_related(ents):
 
 
 SUBCHECKS = {
+    'second-loop': SubCheck(run_second_loop, strategy=lambda tier: st.fixed_dictionaries({
+        'frontend': st.sampled_from(['v2', 'legacy']), 'mode': st.sampled_from(['await', 'task']), 'delay': st.sampled_from([0, 1, 20])}),
+        examples={'quick': 24, 'thorough': 200}, note='the same application object run again in a fresh event loop'),
     'placeholder': SubCheck(run_placeholder, strategy=lambda tier: _placeholder_case(), examples={'quick': 150, 'thorough': 2000},
                             note='Interests with ApplicationParameters whose name carries the digest placeholder at any position'),
     'v2': SubCheck(run_case, strategy=lambda tier: _case('v2'), examples={'quick': 2500, 'thorough': 80000}),
